@@ -21,7 +21,7 @@ RULE = ('A scenario is a dataset (2-30 clients, ids with trailing zero bytes, in
 DISTINCT_MEASURE = 'distinct (op-kind sequence, cohort/population ratio class, dataset kind) hashes'
 PROBES = ('backward_jump', 'restart_at_r_gt_0', 'cohort_eq_population', 'trailing_zero_id_sampled', 'stream_restart_mid_pass',
           'round_reobserved', 'two_objects_interleaved', 'global_rng_noise', 'sqlite_dataset', 'huge_round_number')
-OPTIONAL_PROBES = ('restart_in_fresh_interpreter',)
+OPTIONAL_PROBES = ('restart_in_fresh_interpreter', 'second_dataset_with_same_ids')
 ASSUMPTIONS = ['shuffled_clients is always given an explicit seed (seed=None is documented as non-reproducible)',
                'round numbers stay below 2**31 (PRNGKey(round))']
 REAL_VS_STUB = {
@@ -54,7 +54,7 @@ def generate(seed, tier):
   rounds_pool = [0, 1, 2, 3, 5, 8]
   for _ in range(o.randint(5, 40)):
     k = o.weighted([('sample', 10), ('set', 4), ('restart', 3), ('noise', 2), ('run', 1), ('restart_seen', 2)])
-    obj = o.randint(0, 2)
+    obj = o.randint(0, 2) if o.chance(0.8) else o.randint(3, 4)   # objects 3,4 sample a second dataset with the same ids
     if k == 'sample':
       ops.append(['sample', obj])
     elif k == 'run':            # a long uninterrupted stretch of consecutive rounds on one object
@@ -122,9 +122,13 @@ def execute(sc):
     k = cfg['cohort']
     if k == cfg['n']:
       probes.inc('cohort_eq_population')
+    # second dataset: same client ids, different examples (e.g. a test split keyed by the same writer ids)
+    raw_alt = {cid: {'x': (raw[cid]['x'] + 1000).astype(np.int32)} for cid in ids}
+    fd_alt = fedjax.InMemoryFederatedData(raw_alt)
 
-    def observe(clients, where, stream=False):
+    def observe(clients, where, stream=False, data=None):
       """Checks the within-round clauses and returns the canonical record of the cohort."""
+      data = raw if data is None else data
       evals[0] += 1
       cids = [c[0] for c in clients]
       if len(clients) != k:
@@ -140,7 +144,7 @@ def execute(sc):
         if cid.endswith(b'\x00'):
           probes.inc('trailing_zero_id_sampled')
         got = ds.all_examples()
-        if sorted(got) != ['x'] or np.asarray(got['x']).tobytes() != raw[cid]['x'].tobytes():
+        if sorted(got) != ['x'] or np.asarray(got['x']).tobytes() != data[cid]['x'].tobytes():
           violation('datasets', 'S:sampled-dataset-differs-from-dataset-content', f'{where}: dataset of {cid}')
       keys = [np.asarray(c[2]).tobytes() for c in clients]
       if len(set(keys)) != len(keys):
@@ -148,14 +152,18 @@ def execute(sc):
       return (tuple(cids), tuple(keys))
 
     # ---------------- round-indexed sampler
-    table = {}
+    table_main, table_alt = {}, {}
+    table = table_main
     objs = {}      # obj index -> [sampler, model_round]
     hist = []
     reobserved = 0
 
+    def fd_of(i):
+      return fd_alt if i >= 3 else fd
+
     def get_obj(i):
       if i not in objs:
-        objs[i] = [cs.UniformGetClientSampler(fd, k, cfg['seed'], start_round_num=0), 0]
+        objs[i] = [cs.UniformGetClientSampler(fd_of(i), k, cfg['seed'], start_round_num=0), 0]
       return objs[i]
 
     last_obj = None
@@ -174,7 +182,11 @@ def execute(sc):
           violation('sample', f'S:sample-raises:{type(e).__name__}', f'op#{oi} round {r}: {e!r}')
           continue
         o[1] = r + 1
-        rec = observe(clients, f'op#{oi} object {op[1]} round {r}')
+        if op[1] >= 3:
+          probes.inc('second_dataset_with_same_ids')
+        rec = observe(clients, f'op#{oi} object {op[1]} round {r}', data=(raw_alt if op[1] >= 3 else raw))
+        # one table per dataset: the cohort of a round may depend on the dataset's own iteration order of ids
+        table = table_alt if op[1] >= 3 else table_main
         if r in table:
           reobserved += 1
           probes.inc('round_reobserved')
@@ -199,20 +211,21 @@ def execute(sc):
         o[0].set_round_num(op[2])
         o[1] = op[2]
       elif kind == 'restart_seen':
-        if not table:
+        tb = table_alt if op[1] >= 3 else table_main
+        if not tb:
           continue
-        rr = sorted(table)[op[2] % len(table)]
+        rr = sorted(tb)[op[2] % len(tb)]
         if rr > 0:
           probes.inc('restart_at_r_gt_0')
         faults.inc('restart')
-        objs[op[1]] = [cs.UniformGetClientSampler(fd, k, cfg['seed'], start_round_num=rr), rr]
+        objs[op[1]] = [cs.UniformGetClientSampler(fd_of(op[1]), k, cfg['seed'], start_round_num=rr), rr]
       elif kind == 'restart':
         if op[2] > 0:
           probes.inc('restart_at_r_gt_0')
         if op[2] >= 10**4:
           probes.inc('huge_round_number')
         faults.inc('restart')
-        objs[op[1]] = [cs.UniformGetClientSampler(fd, k, cfg['seed'], start_round_num=op[2]), op[2]]
+        objs[op[1]] = [cs.UniformGetClientSampler(fd_of(op[1]), k, cfg['seed'], start_round_num=op[2]), op[2]]
       elif kind == 'noise':
         probes.inc('global_rng_noise')
         faults.inc('global_rng_noise')
@@ -300,10 +313,10 @@ def execute(sc):
         pass
   ratio = 'all' if k == cfg['n'] else ('one' if k == 1 else 'some')
   hkey = hashlib.sha256(repr((hist, ratio, cfg['sqlite'])).encode()).hexdigest()[:12]
-  trace.ev('c13', table=sorted((r, v[0], hashlib.sha256(b''.join(v[1])).hexdigest()[:8]) for r, v in table.items()),
+  trace.ev('c13', table=sorted((r, v[0], hashlib.sha256(b''.join(v[1])).hexdigest()[:8]) for r, v in table_main.items()),
            stream=sorted((r, v[0]) for r, v in stream_table.items()), viols=sorted(sigs))
   sample = {'config': cfg, 'ops': sc['ops'][:25], 'stream_ops': sc['stream_ops'],
-            'rounds_observed': sorted(table)[:12], 'reobservations': reobserved}
+            'rounds_observed': sorted(table_main)[:12], 'reobservations': reobserved}
   return {'digest': trace.digest(), 'evaluations': evals[0], 'violations': viols, 'probes': dict(probes),
           'faults': dict(faults), 'distinct': [hkey], 'nontrivial': [hkey] if reobserved else [], 'sim_rounds': evals[0],
           'sim_seconds': 0.0, 'sample': sample}
